@@ -134,10 +134,12 @@ func c03Menu(f *concFix) []crashCmd {
 
 // tornOffsetsOf: the byte offsets at which a write of data is cut. Quick: {1, 2, L/2, L-2, L-1} plus every line boundary
 // of a multi-line batch and the bytes next to it (a batch cut exactly between two of its events is the cut that leaves
-// whole events of a half-applied command behind); thorough: every offset.
+// whole events of a half-applied command behind); thorough: every offset of a write of up to 4 KiB; for larger writes the
+// quick set plus 256 evenly spaced cuts and the bytes around the 4 KiB and 64 KiB marks (every offset of the 200 KB line
+// would be 200 000 stores of 200 KB - the first thorough run that tried was killed for lack of memory).
 func tornOffsetsOf(data []byte, thorough bool) []int {
 	out := tornOffsets(len(data), thorough)
-	if thorough {
+	if thorough && len(data) <= 4096 {
 		return out
 	}
 	set := map[int]bool{}
@@ -165,7 +167,7 @@ func tornOffsets(L int, thorough bool) []int {
 	if L <= 1 {
 		return nil
 	}
-	if thorough {
+	if thorough && L <= 4096 {
 		var all []int
 		for t := 1; t < L; t++ {
 			all = append(all, t)
@@ -173,6 +175,18 @@ func tornOffsets(L int, thorough bool) []int {
 		return all
 	}
 	set := map[int]bool{1: true, L / 2: true, L - 2: true, L - 1: true, 2: true}
+	if thorough {
+		// a write of more than 4 KiB (the 200 KB line): every offset would be 200 000 stores of 200 KB each; the cuts that
+		// differ in kind are the ones near the ends, near the 4 KiB / 64 KiB marks and 256 evenly spaced ones
+		for k := 1; k < 256; k++ {
+			set[k*L/256] = true
+		}
+		for _, m := range []int{4096, 65536} {
+			for d := -2; d <= 2; d++ {
+				set[m+d] = true
+			}
+		}
+	}
 	var out []int
 	for t := range set {
 		if t >= 1 && t < L {
@@ -437,7 +451,7 @@ func runC03(env *core.Env) {
 		"crash_states": crashStates, "torn_states": tornStates, "distinct_states": len(seen), "states_checked": statesChecked,
 		"recovery_commands_run": followUps, "strace_runs": straceRuns, "kill_points_not_landed": notLanded, "outcome_classes": classes.snapshot(),
 		"unconfirmed_candidates": unconfirmed.Load(),
-		"explanation":            "explicit-state search over crash states: from 3 pre-states (+ the first one with CRLF line ends, reduced menu) every command of a 15-command menu is killed (production binary, SIGKILL via strace) on entry to every store-mutating system call, and every log write is additionally cut short at byte offsets {1,2,L/2,L-2,L-1} and at every line boundary of a multi-event batch +-1 (thorough: every offset); each distinct state must be readable (JSON reads and the text views), show exactly its whole events, keep every earlier event in order, and every menu command must then behave exactly as on the clean store with the same whole events and leave the store readable; damaged states (torn tail / temp file) are crashed again (depth 2; thorough 3)",
+		"explanation":            "explicit-state search over crash states: from 3 pre-states (+ the first one with CRLF line ends, reduced menu) every command of a 15-command menu is killed (production binary, SIGKILL via strace) on entry to every store-mutating system call, and every log write is additionally cut short at byte offsets {1,2,L/2,L-2,L-1} and at every line boundary of a multi-event batch +-1 (thorough: every offset of writes up to 4 KiB, 256 evenly spaced cuts plus the 4 KiB / 64 KiB marks of larger ones); each distinct state must be readable (JSON reads and the text views), show exactly its whole events, keep every earlier event in order, and every menu command must then behave exactly as on the clean store with the same whole events and leave the store readable; damaged states (torn tail / temp file) are crashed again (depth 2; thorough 3)",
 	}, []string{
 		"process death only: page cache survives SIGKILL, no power-loss / fsync reordering model",
 		"a torn write is a byte prefix of the data of one write(2)",
